@@ -112,6 +112,10 @@ def run(ctx):
             "TLX.Props.C01Suites.table_covered", "TLX.Props.C01Suites.every_table_suite_has_proved_class",
             "TLX.Props.C01Suites.table_suite_cipher_type_known"])
         rl.run_reclayer(ctx)
+    # whole-program tie: the real tool against the composed model TLX.Pipeline (main loop + reassembly + session +
+    # suite table + key log + key schedule + record layer + builder), toy ciphers and real hashes on both sides
+    import pipeline_corr
+    pipeline_corr.correspond(ctx)
     explore(ctx)
     return ctx.finish(search=lambda c: explore(c, scale=3))
 
